@@ -537,8 +537,8 @@ v("c27-sql-no-partition-clause", "C27", SM,
 v("c27-sql-first-term-only", "C27", SM,
   "            terms[ci] = self.expr_to_sql(oi) + window_term\n", "            terms[ci] = self.expr_to_sql(oi) + (window_term if ci == list(subops.keys())[0] else \"\")\n")
 v("c27-polars-sort-after-compute", "C27", "polars_model.py",
-  "            res = res.sort(by=op.order_by, descending=reversed_cols)\n        res = res.with_columns(produced_columns)",
-  "            pass\n        res = res.with_columns(produced_columns)\n        if len(op.order_by) > 0:\n            res = res.sort(by=op.order_by, descending=reversed_cols)")
+  "        if len(op.order_by) > 0:\n            order_cols = list(partition_by)\n",
+  "        res = res.with_columns(produced_columns)\n        produced_columns = []\n        if len(op.order_by) > 0:\n            order_cols = list(partition_by)\n")
 v("c27-polars-over-dropped", "C27", "polars_model.py", "                fld_k = fld_k.over(partition_by)\n", "                fld_k = fld_k\n")
 v("c27-polars-descending-flipped", "C27", "polars_model.py",
   "                True if ci in set(op.reverse) else False for ci in op.order_by", "                False if ci in set(op.reverse) else True for ci in op.order_by")
@@ -891,7 +891,7 @@ v("d52-helper-ignores-second-argument", "C11", ER,
 v("d52-twin-repr-builtin", "C11", ER,
   "    return (type(a) == type(b)) and (a.__repr__() == b.__repr__())", "    return (type(a) == type(b)) and (repr(a) == repr(b))", expect="silent")
 v("d53-limit-stored-as-given", "C11", VR,
-  "        if limit is not None:\n            if int(limit) != limit:\n                raise ValueError(\"limit must be an integer\")\n            limit = int(limit)\n", "")
+  "            if int(limit) != limit:\n                raise ValueError(\"limit must be an integer\")\n            limit = int(limit)\n", "")
 
 v("d54-window-sort-by-all-columns", "C10", PB,
   "                        by=order_cols, ascending=ascending, kind=\"stable\"", "                        by=col_list, ascending=[c not in set(op.reverse) for c in col_list], kind=\"stable\"")
@@ -909,7 +909,7 @@ v("d57-polars-concat-columns-drops-result", "C03", PM, '        res = pl.concat(
 
 v("d58-polars-group-order-arbitrary", "C19", PM, "        res = res.group_by(group_by, maintain_order=True).agg(produced_columns)", "        res = res.group_by(group_by).agg(produced_columns)")
 v("d58-polars-order-rows-sort-unstable", "C19", PM, "            nulls_last=True,\n            maintain_order=True,\n", "            nulls_last=True,\n")
-v("d58-polars-window-sort-unstable", "C19", PM, "                by=op.order_by, descending=reversed_cols, maintain_order=True\n", "                by=op.order_by, descending=reversed_cols\n")
+v("d58-polars-window-sort-unstable", "C19", PM, "                nulls_last=True,\n                maintain_order=True,\n            )  # missing order keys last", "                nulls_last=True,\n            )  # missing order keys last")
 
 v("d48-twin-direct-return", "C08", PB,
   "            res = res[declared_columns]\n        return res\n", "            return res[declared_columns]\n        return res\n", expect="silent")
